@@ -3,14 +3,8 @@
 //!   gmverif replay <file>             re-execute one saved case (no proptest involved)
 //!   gmverif selftest                  check the reference implementations against their anchors
 
-#[macro_use]
-pub mod engine;
-pub mod corpus;
-pub mod gen;
-pub mod props;
-pub mod refimpl;
-
-use engine::{Ctx, Tier};
+use gmverif::engine::{self, Ctx, Tier};
+use gmverif::{props, refimpl};
 
 fn prop_static(id: &str) -> Option<&'static str> {
     props::ALL.iter().map(|p| p.0).find(|p| *p == id)
@@ -232,6 +226,30 @@ fn main() {
                 })
                 .collect();
             println!("[{}]", hits.join(",\n"));
+        }
+        "fuzz-replay" => {
+            // re-execute one libFuzzer input without libFuzzer: gmverif fuzz-replay <target> <file>
+            let target = &args[2];
+            let data = std::fs::read(&args[3]).expect("read input");
+            let prop = gmverif::fuzzdec::property_of(target).unwrap_or("C20");
+            let known = engine::known::KnownFindings::load();
+            match gmverif::fuzzdec::run_target(target, &data) {
+                Ok(()) => println!("REPLAY property={} target={} result=PASS", prop, target),
+                Err(f) if known.is_open(prop, &f.key) => println!("KNOWN-FINDING: property={} {} [key={} replay={}]", prop, known.describe(prop, &f.key), f.key, args[3]),
+                Err(f) => {
+                    println!("VIOLATION property={} replay={}", prop, args[3]);
+                    println!("  target={} key={}", target, f.key);
+                    println!("  detail={}", engine::truncate_str(&f.detail, 2000));
+                    std::process::exit(1);
+                }
+            }
+        }
+        "fuzz-seed-corpus" => {
+            // write the seed corpus of a target into a directory: gmverif fuzz-seed-corpus <target> <dir>
+            std::fs::create_dir_all(&args[3]).unwrap();
+            for (i, s) in gmverif::fuzzdec::seed_corpus(&args[2]).iter().enumerate() {
+                std::fs::write(format!("{}/seed-{:03}", args[3], i), s).unwrap();
+            }
         }
         "replay" => {
             let code = replay_file(&args[2], Tier::Quick, seed, false);
